@@ -154,12 +154,16 @@ def nsToJson (ns : Namespace) : Json :=
 def apiOfJson (j : Json) : Except String Api := do
   pure { namespaces := ← (← jarr j "namespaces").toList.mapM nsOfJson,
          schema := (← strList j "schema").map s2l,
-         schemaByName := (← strList j "schema_by_name").map s2l }
+         schemaByName := (← strList j "schema_by_name").map s2l,
+         schemaInherited := match jopt j "schema_inherited" with
+           | some v => ((v.getArr?.toOption.getD #[]).toList.filterMap fun x => x.getStr?.toOption).map s2l
+           | none => [] }
 
 def apiToJson (a : Api) : Json :=
   Json.mkObj [("namespaces", Json.arr (a.namespaces.map nsToJson).toArray),
               ("schema", Json.arr (a.schema.map jname).toArray),
-              ("schema_by_name", Json.arr (a.schemaByName.map jname).toArray)]
+              ("schema_by_name", Json.arr (a.schemaByName.map jname).toArray),
+              ("schema_inherited", Json.arr (a.schemaInherited.map jname).toArray)]
 
 def optsOfJson (j : Json) : Except String Opts := do
   let f ← match jopt j "f" with
